@@ -33,6 +33,11 @@ LoadF(m, image, ss, ps) ==
      ELSE IF ps = -1 THEN [m3 EXCEPT !.ps = Len(image)]
      ELSE m3
 
+\* Machine::load_raw: master reset, then the bytes are copied over the RAM (the rest of the RAM and the limits are kept)
+LoadRawF(m, image) ==
+  LET m1 == MasterResetF(m) IN
+  [m1 EXCEPT !.ram = [i \in 0..239 |-> IF i < Len(image) THEN image[i + 1] ELSE m1.ram[i]]]
+
 \* configuration applied by Machine::new / new_with_program, in the code's order
 ApplyConfigF(m, c) ==
   LET m1 == [m EXCEPT !.inr = [i \in 0..3 |-> c.inr[i]]]
